@@ -73,7 +73,24 @@ def step (line : String) : String :=
   | some t, some pdb, some result, some q =>
     match decEntries t, (Sexp.parse pdb).bind decDb, (Sexp.parse result).bind decResult, Sexp.parse q with
     | some es, some db, some (.ok txns bal), some (.list qs) =>
-      match mkWorld es db with
+      -- the model parses the price-db TEXT itself (Okane.PriceDbFile) when the harness echoes it; the generator's
+      -- structured records are then only a cross-check
+      let world : Except String World :=
+        match field fs "db" with
+        | some dbt =>
+          if dbt == "~" then mkWorld es db else
+          match Sexp.decode dbt with
+          | none => .error "undecodable db text"
+          | some text =>
+            match mkWorldText es text.toList with
+            | .ok (.ok w) =>
+              match PriceDbFile.parsePriceDb text.toList with
+              | .ok rs => if recsMatch rs db then .ok w else .error "model-parsed price-db records differ from the generator's"
+              | _ => .error "price db parses in processPriceDb but not in parsePriceDb"
+            | .ok (.error e) => .error ("model rejects the price db the implementation loaded " ++ showErr e)
+            | .error e => .error e
+        | none => mkWorld es db
+      match world with
       | .error e => s!"{id} DISAGREE implementation processed the ledger, {e}"
       | .ok w =>
         if !(listAll2 txnEq w.st.txns txns && balanceEq w.st.bal bal) then
